@@ -306,6 +306,50 @@ def clt_case(ctx, rs, scope, pred, bud, tag):
                     return
 
 
+def wide_mixture_case(ctx, k):
+    """one batch mixing rows with heavy evidence (hundreds of observed variables: log-likelihoods around -200) and rows with no
+    evidence at all: the branch of a sum node must be drawn from the posterior of ITS row, whatever else is in the batch"""
+    rs = np.random.RandomState(np_seed(ctx.sub_rng('wide', k)))
+    nv = int(rs.choice([200, 300]))
+    nc = int(rs.randint(2, 5))
+    P = rs.uniform(0.15, 0.85, size=(nc, nv))
+    comps = [Product(children=[Bernoulli(v, float(P[c, v])) for v in range(nv)]) for c in range(nc)]
+    w = rs.dirichlet(np.ones(nc)).astype(np.float32)
+    root = assign_ids(Sum(children=comps, weights=(w / w.sum()).astype(np.float32)))
+    target = int(rs.randint(nv))
+    ev = (rs.rand(nv) < P[int(rs.randint(nc))]).astype(np.float32)       # typical for one component
+    ev[target] = np.nan
+    n_heavy, n_light = 6000, 6000
+    X = np.vstack([np.repeat(ev[None, :], n_heavy, axis=0), np.full((n_light, nv), np.nan, dtype=np.float32)])
+    X = X[rs.permutation(len(X))]
+    heavy = ~np.isnan(X[:, (target + 1) % nv])
+    seed = int(rs.randint(2 ** 31 - 1))
+    rep = dict(kind='c07-wide', k=k, seed=ctx.seed)
+    ctx.case('wide-mixture', nontrivial_key=('wide', k), sample=dict(stream='wide-mixture', variables=nv, components=nc, rows=len(X)))
+    ctx.count('wide-mixture-cases')
+    np.random.seed(seed)
+    try:
+        Y = sample(root, X)
+    except Exception as ex:
+        ctx.violation('c07-sample-raises', f'sample raised {type(ex).__name__}: {ex} on a mixed batch', replay=rep)
+        return
+    # exact posterior of the components given the heavy evidence, in the log domain (float64)
+    obs = [v for v in range(nv) if v != target]
+    lw = np.log(np.asarray(root.weights, dtype=np.float64)) + np.array([sum(math.log(P[c, v] if ev[v] == 1 else 1 - P[c, v]) for v in obs) for c in range(nc)])
+    post = np.exp(lw - np.max(lw)); post /= post.sum()
+    exact_heavy = float(np.dot(post, P[:, target]))
+    exact_light = float(np.dot(np.asarray(root.weights, dtype=np.float64), P[:, target]))
+    eps = math.sqrt(math.log(2.0 * 1e4 / FWER) / (2.0 * n_heavy))
+    for name, mask, exact in (('heavy-evidence rows', heavy, exact_heavy), ('rows without evidence', ~heavy, exact_light)):
+        f = float(np.mean(Y[mask, target]))
+        if abs(f - exact) > eps:
+            ctx.violation('c07-law:mixed-batch', f'{name} of a mixed batch ({nv} variables, evidence log-likelihood about {float(np.max(lw)):.0f}): sampled frequency of '
+                                                 f'X{target}=1 is {f:.4f}, exact conditional probability {exact:.4f} (N={int(mask.sum())}, bound {eps:.4f})', replay=rep)
+            return
+    if np.isnan(Y).any() or not np.array_equal(Y[heavy][:, obs], X[heavy][:, obs]):
+        ctx.violation('c07-contract', 'sample on a mixed batch left entries unfilled or changed evidence', replay=rep)
+
+
 def run(ctx):
     quick = ctx.tier == 'quick'
     n_draws = 200000 if quick else 1000000
@@ -319,6 +363,10 @@ def run(ctx):
             break
     for k in range(n_cont):
         continuous_case(ctx, k, bud)
+        if ctx.n_new(with_input_only=True) >= 3:
+            break
+    for k in range(2 if quick else 20):
+        wide_mixture_case(ctx, k)
         if ctx.n_new(with_input_only=True) >= 3:
             break
     preds = [p for n in range(2, 5) for p in C.all_pred_vectors(n)]
@@ -356,6 +404,14 @@ def run(ctx):
 
 
 def replay(rep):
+    if rep['replay'].get('kind') == 'c07-wide':
+        from harness.common import Ctx
+        ctx = Ctx('C07', 'quick', rep['replay']['seed'])
+        ctx.driver_ok = False
+        wide_mixture_case(ctx, rep['replay']['k'])
+        for v in ctx.violations:
+            print('  ', v['what'][:300])
+        return not ctx.violations
     if rep['replay'].get('kind') == 'c07-float64':
         from harness.c06 import replay_float64
         return replay_float64(rep['replay'], sample)
